@@ -156,6 +156,35 @@ def scan_outputs(c, d, label):
                 break
 
 
+_DECOY = []
+
+
+def decoy_dir(base):
+    """Copies of the non-YAML files of regression/input whose splicer blocks carry an extra line."""
+    import threading
+    with _LOCK:
+        if _DECOY:
+            return _DECOY[0]
+        d = os.path.join(base, "decoy")
+        os.makedirs(d, exist_ok=True)
+        for fn in os.listdir(corpus.INPUT):
+            if fn.endswith(".yaml") or not os.path.isfile(os.path.join(corpus.INPUT, fn)):
+                continue
+            mark = {"f": "! look-alike", "f90": "! look-alike", "py": "# look-alike", "lua": "-- look-alike"}.get(fn.rsplit(".", 1)[-1], "// look-alike")
+            out = []
+            for line in open(os.path.join(corpus.INPUT, fn), errors="replace"):
+                out.append(line)
+                if "splicer begin" in line:
+                    out.append(mark + "\n")
+            open(os.path.join(d, fn), "w").write("".join(out))
+        _DECOY.append(d)
+        return d
+
+
+import threading
+_LOCK = threading.Lock()
+
+
 def run(tier):
     with Check("C07", tier) as c:
         rng = random.Random(common.seed())
@@ -200,7 +229,7 @@ def run(tier):
                         scan_outputs(c, outs[k], lib[0])
                 traces.append({"kind": "history", "runs": runs, "label": ">".join(l[0] for l in libs)})
             # perturbations (separate processes)
-            plibs = POOL if thorough else POOL[:5]
+            plibs = POOL if thorough else POOL[:5]   # (tutorial, the fifth, reads a splicer file)
 
             def perturb(job):
                 j, lib, dim = job
@@ -213,6 +242,9 @@ def run(tier):
                     "hash seed (2)": [dict(env={"PYTHONHASHSEED": "2"}), dict(env={"PYTHONHASHSEED": "3"})],
                     "hash seed (3)": [dict(env={"PYTHONHASHSEED": "4"}), dict(env={"PYTHONHASHSEED": "77"})],
                     "working directory": [dict(cwd=d), dict(cwd="/")],
+                    # a working directory that holds look-alikes of every auxiliary input file (splicer files of
+                    # the same names with other code): with absolute paths on the command line they are not inputs
+                    "working directory with look-alike files": [dict(cwd=d), dict(cwd=decoy_dir(base))],
                     "environment": [dict(env={"LANG": "C", "TZ": "UTC", "USER": "alice", "HOME": "/nonexistent"}),
                                     dict(env={"LANG": "en_US.UTF-8", "TZ": "Asia/Tokyo", "USER": "bob", "COLUMNS": "40"})],
                     "pre-existing output files": [dict(pre=False), dict(pre=True)],
@@ -244,7 +276,8 @@ def run(tier):
                     jobs.append((j, gen_lib(base, name), dim))
                     j += 1
             for lib in plibs:
-                for dim in ("hash seed", "working directory", "environment", "pre-existing output files", "repetition"):
+                for dim in ("hash seed", "working directory", "working directory with look-alike files", "environment",
+                            "pre-existing output files", "repetition"):
                     jobs.append((j, lib, dim))
                     j += 1
             with cf.ThreadPoolExecutor(common.NCPU) as ex:
